@@ -45,15 +45,255 @@ Proof. reflexivity. Qed.
 Lemma comma_sp_lexes l ts : lexes l ts -> lexes ([44; 32] ++ l) (TComma :: ts).
 Proof. intros H. cbn [app]. lx. exact H. Qed.
 
+(* the loop over one payload type, inside its brackets *)
+Lemma lexes_render {I} (inc : I -> bool) (pf : I -> list N) (tf : I -> json) (wf : I -> bool) l tail tts :
+  (forall x rest ts, wf x = true -> lexes rest ts -> lexes (pf x ++ rest) (toks (tf x) ++ ts)) ->
+  forallb wf l = true -> num_end tail -> lexes tail tts ->
+  lexes (render inc pf comma_nl l ++ tail) (tsep (map toks (map tf (filter inc l))) ++ tts).
+Proof.
+  intros Hitem Hwf He Hl. unfold render. rewrite map_map.
+  apply (lexes_sep_by comma_nl pf (fun x => toks (tf x)) (filter inc l));
+    [exact comma_nl_end | exact comma_nl_lexes | | exact He | exact Hl].
+  intros x Hx rest ts _ Hr. apply Hitem; [|exact Hr].
+  apply filter_In in Hx as [Hx _]. rewrite forallb_forall in Hwf. auto.
+Qed.
+
+Ltac split_wf H :=
+  repeat match type of H with _ && _ = true => let H2 := fresh "Hw" in apply andb_true_iff in H as [H H2] end.
+
 (* ---------------------------------------------------------------- json items *)
 
-Lemma lexes_json_providers ps rest ts : lexes rest ts ->
-  lexes (json_providers ps ++ rest) (tsep (map (fun p => [TStr (asn_txt p)]) ps) ++ ts).
+Lemma lexes_json_providers ps rest ts : num_end rest -> lexes rest ts ->
+  lexes (json_providers ps ++ rest) (tsep (map toks (map (fun p => JStr (asn_txt p)) ps)) ++ ts).
 Proof.
-  intros Hl. unfold json_providers.
-  apply (lexes_sep_by [44; 32] json_provider (fun p => [TStr (asn_txt p)]) ps);
-    [exact comma_sp_end | exact comma_sp_lexes | | | exact Hl].
-  - intros p _ r t _ H. unfold json_provider. norm_app. lx. exact H.
-  - (* whatever follows a provider list is a bracket, handled by the caller *)
-    destruct rest as [|c r]; [exact I|].
-Abort.
+  intros He Hl. unfold json_providers. rewrite map_map.
+  apply (lexes_sep_by [44; 32] json_provider (fun p => toks (JStr (asn_txt p))) ps);
+    [exact comma_sp_end | exact comma_sp_lexes | | exact He | exact Hl].
+  intros p _ r t _ H. unfold json_provider. cbn [toks]. norm_app. lx. exact H.
+Qed.
+
+Lemma lexes_json_origin o rest ts : origin_wfb o = true -> lexes rest ts ->
+  lexes (json_origin o ++ rest) (toks (origin_tree o) ++ ts).
+Proof.
+  intros Hwf Hl. unfold origin_wfb in Hwf. split_wf Hwf.
+  unfold json_origin, origin_tree, ta_member, j_asn, j_prefix, j_maxlen, j_ta, j_end.
+  cbn [toks tsep map fst snd]. norm_app. lx. exact Hl.
+Qed.
+
+Lemma lexes_json_key k rest ts : key_wfb k = true -> lexes rest ts ->
+  lexes (json_key k ++ rest) (toks (key_tree k) ++ ts).
+Proof.
+  intros Hwf Hl. unfold key_wfb in Hwf. split_wf Hwf.
+  unfold json_key, key_tree, ta_member, j_asn, j_ski, j_rpk, j_qta, j_end.
+  cbn [toks tsep map fst snd]. norm_app. lx. exact Hl.
+Qed.
+
+Lemma lexes_json_aspa a rest ts : aspa_wfb a = true -> lexes rest ts ->
+  lexes (json_aspa a ++ rest) (toks (aspa_tree a) ++ ts).
+Proof.
+  intros _ Hl.
+  unfold json_aspa, aspa_tree, providers_tree, ta_member, j_customer, j_providers, j_bta, j_end.
+  cbn [toks tsep map fst snd]. norm_app. lx.
+  apply lexes_json_providers; [reflexivity|]. lx. exact Hl.
+Qed.
+
+(* ---------------------------------------------------------------- jsonext items *)
+
+Lemma lexes_xjson_src ty s rest ts : plainb ty = true -> src_wfb s = true -> lexes rest ts ->
+  lexes (xjson_src ty s ++ rest) (toks (src_tree ty s) ++ ts).
+Proof.
+  intros Hty Hwf Hl. destruct s as [tal uri nb na' cnb cna stale | path comment].
+  - cbn [src_wfb] in Hwf. split_wf Hwf.
+    unfold xjson_src, src_tree, validity_tree, x_type, x_uri, x_tal, x_validity, x_notafter, x_chain, x_stale, x_pubend.
+    destruct uri as [u|]; cbn [opt_str opt_tree oplainb] in *; unfold s_null;
+      cbn [toks tsep map fst snd]; norm_app; lx; exact Hl.
+  - unfold xjson_src, src_tree, x_exc, x_comment, x_excend.
+    destruct path as [p|], comment as [c|]; cbn [opt_str opt_tree]; unfold s_null;
+      cbn [toks tsep map fst snd app]; norm_app; lx; exact Hl.
+Qed.
+
+Lemma lexes_xjson_srcs ty l rest ts : plainb ty = true -> forallb src_wfb l = true -> num_end rest -> lexes rest ts ->
+  lexes (xjson_srcs ty l ++ rest) (tsep (map toks (map (src_tree ty) l)) ++ ts).
+Proof.
+  intros Hty Hwf He Hl. unfold xjson_srcs. rewrite map_map.
+  apply (lexes_sep_by [44; 32] (xjson_src ty) (fun s => toks (src_tree ty s)) l);
+    [exact comma_sp_end | exact comma_sp_lexes | | exact He | exact Hl].
+  intros s Hs r t _ H. apply lexes_xjson_src; auto. rewrite forallb_forall in Hwf. auto.
+Qed.
+
+Lemma lexes_xjson_origin o rest ts : origin_wfb o = true -> lexes rest ts ->
+  lexes (xjson_origin o ++ rest) (toks (xorigin_tree o) ++ ts).
+Proof.
+  intros Hwf Hl. unfold origin_wfb in Hwf. split_wf Hwf.
+  unfold xjson_origin, xorigin_tree, source_member, j_asn, j_prefix, j_maxlen, x_source, x_end.
+  cbn [toks tsep map fst snd]. norm_app. lx.
+  apply lexes_xjson_srcs; [reflexivity | assumption | reflexivity |]. lx. exact Hl.
+Qed.
+
+Lemma lexes_xjson_key k rest ts : key_wfb k = true -> lexes rest ts ->
+  lexes (xjson_key k ++ rest) (toks (xkey_tree k) ++ ts).
+Proof.
+  intros Hwf Hl. unfold key_wfb in Hwf. split_wf Hwf.
+  unfold xjson_key, xkey_tree, source_member, j_asn, j_ski, j_rpk, x_qsource, x_end.
+  cbn [toks tsep map fst snd]. norm_app. lx.
+  apply lexes_xjson_srcs; [reflexivity | assumption | reflexivity |]. lx. exact Hl.
+Qed.
+
+Lemma lexes_xjson_aspa a rest ts : aspa_wfb a = true -> lexes rest ts ->
+  lexes (xjson_aspa a ++ rest) (toks (xaspa_tree a) ++ ts).
+Proof.
+  intros Hwf Hl. unfold aspa_wfb in Hwf.
+  unfold xjson_aspa, xaspa_tree, providers_tree, source_member, j_customer, j_providers, x_bsource, x_end.
+  cbn [toks tsep map fst snd]. norm_app. lx.
+  apply lexes_json_providers; [reflexivity|]. lx.
+  apply lexes_xjson_srcs; [reflexivity | assumption | reflexivity |]. lx. exact Hl.
+Qed.
+
+(* ---------------------------------------------------------------- slurm items *)
+
+Lemma lexes_slurm_origin o rest ts : origin_wfb o = true -> lexes rest ts ->
+  lexes (slurm_origin o ++ rest) (toks (sorigin_tree o) ++ ts).
+Proof.
+  intros Hwf Hl. unfold origin_wfb in Hwf. split_wf Hwf.
+  unfold slurm_origin, sorigin_tree, sl_open, sl_prefix, sl_prefix_end, sl_maxlen, sl_comment, sl_close, comma_nl.
+  destruct (o_maxlen o) as [m|]; cbn [toks tsep map fst snd app]; norm_app; lx; exact Hl.
+Qed.
+
+Lemma lexes_slurm_key k rest ts : key_wfb k = true -> lexes rest ts ->
+  lexes (slurm_key k ++ rest) (toks (skey_tree k) ++ ts).
+Proof.
+  intros Hwf Hl. unfold key_wfb in Hwf. split_wf Hwf.
+  unfold slurm_key, skey_tree, sl_open, sl_ski, sl_rpk, sl_qcomment, sl_close.
+  cbn [toks tsep map fst snd]. norm_app. lx. exact Hl.
+Qed.
+
+Lemma sa_next_end l : num_end (sa_next ++ l).
+Proof. reflexivity. Qed.
+Lemma sa_next_lexes l ts : lexes l ts -> lexes (sa_next ++ l) (TComma :: ts).
+Proof. intros H. unfold sa_next. cbn [app]. lx. exact H. Qed.
+
+Lemma lexes_slurm_providers ps rest ts : num_end rest -> lexes rest ts ->
+  lexes (slurm_providers ps ++ rest) (tsep (map toks (map (fun p => JNum (dec p)) ps)) ++ ts).
+Proof.
+  intros He Hl. destruct ps as [|p ps]; [exact Hl|].
+  unfold slurm_providers, sa_first. norm_app. lx. rewrite map_map.
+  apply (lexes_sep_by sa_next dec (fun p => toks (JNum (dec p))) (p :: ps));
+    [exact sa_next_end | exact sa_next_lexes | | exact He | exact Hl].
+  intros x _ r t Hr H. cbn [toks app]. apply lexes_num; [apply dec_num_wfb | exact Hr | exact H].
+Qed.
+
+Lemma lexes_slurm_aspa a rest ts : aspa_wfb a = true -> lexes rest ts ->
+  lexes (slurm_aspa a ++ rest) (toks (saspa_tree a) ++ ts).
+Proof.
+  intros _ Hl.
+  unfold slurm_aspa, saspa_tree, sa_open, sa_providers, sa_close, sl_close.
+  cbn [toks tsep map fst snd]. norm_app. lx.
+  apply lexes_slurm_providers; [reflexivity|]. lx. exact Hl.
+Qed.
+
+(* ---------------------------------------------------------------- whole documents *)
+
+Lemma snap_wf_parts snap : snap_wfb snap = true ->
+  forallb origin_wfb (origins snap) = true /\ forallb key_wfb (rkeys snap) = true /\ forallb aspa_wfb (aspas snap) = true.
+Proof. unfold snap_wfb. rewrite !andb_true_iff. tauto. Qed.
+
+Ltac lx_doc Ho Hk Ha Hwo Hwk Hwa :=
+  repeat first
+    [ lx1
+    | apply (lexes_render _ _ _ origin_wfb); [exact Ho | exact Hwo | reflexivity |]
+    | apply (lexes_render _ _ _ key_wfb); [exact Hk | exact Hwk | reflexivity |]
+    | apply (lexes_render _ _ _ aspa_wfb); [exact Ha | exact Hwa | reflexivity |] ].
+
+Section JsonLike.
+(* json and jsonext share everything but the item writers *)
+Variables (po : origin -> list N) (pk : rkey -> list N) (pa : aspa -> list N).
+Variables (to : origin -> json) (tk : rkey -> json) (ta : aspa -> json).
+Hypothesis Ho : forall o rest ts, origin_wfb o = true -> lexes rest ts -> lexes (po o ++ rest) (toks (to o) ++ ts).
+Hypothesis Hk : forall k rest ts, key_wfb k = true -> lexes rest ts -> lexes (pk k ++ rest) (toks (tk k) ++ ts).
+Hypothesis Ha : forall a rest ts, aspa_wfb a = true -> lexes rest ts -> lexes (pa a ++ rest) (toks (ta a) ++ ts).
+
+Definition json_like_texts (m : meta) : texts N :=
+  {| t_header := json_header m;
+     t_before_origins := fun b => when b json_roas; t_origin := po; t_origin_delim := comma_nl;
+     t_after_origins := json_close;
+     t_before_keys := fun b => when b json_keys; t_key := pk; t_key_delim := comma_nl;
+     t_after_keys := json_close;
+     t_before_aspas := fun b => when b json_aspas; t_aspa := pa; t_aspa_delim := comma_nl;
+     t_after_aspas := json_close;
+     t_footer := json_footer |}.
+
+Lemma json_like_lexes m out snap : meta_wfb m = true -> snap_wfb snap = true ->
+  lexes (run (shape_of Json) (json_like_texts m) out snap 12 SHeader) (toks (json_doc to tk ta m out snap)).
+Proof.
+  intros Hm Hs. destruct (snap_wf_parts snap Hs) as (Hwo & Hwk & Hwa). unfold meta_wfb in Hm.
+  destruct out as [sel fo fk fa]. unfold json_doc, metadata_member.
+  destruct fo, fk, fa;
+    cbn -[render filter inc_origin inc_key inc_aspa dec];
+    unfold json_header, json_header1, json_header2, json_header3, json_roas, json_keys, json_aspas, json_close, json_footer;
+    cbn [toks tsep map fst snd app]; norm_app;
+    lx_doc Ho Hk Ha Hwo Hwk Hwa.
+Qed.
+End JsonLike.
+
+Lemma json_lexes m out snap : meta_wfb m = true -> snap_wfb snap = true ->
+  forall tx, byte_texts Json m = Some tx ->
+  lexes (run (shape_of Json) tx out snap 12 SHeader) (toks (json_doc origin_tree key_tree aspa_tree m out snap)).
+Proof.
+  intros Hm Hs tx E. inversion E; subst tx.
+  exact (json_like_lexes json_origin json_key json_aspa origin_tree key_tree aspa_tree
+           lexes_json_origin lexes_json_key lexes_json_aspa m out snap Hm Hs).
+Qed.
+
+Lemma jsonext_lexes m out snap : meta_wfb m = true -> snap_wfb snap = true ->
+  forall tx, byte_texts ExtendedJson m = Some tx ->
+  lexes (run (shape_of ExtendedJson) tx out snap 12 SHeader) (toks (json_doc xorigin_tree xkey_tree xaspa_tree m out snap)).
+Proof.
+  intros Hm Hs tx E. inversion E; subst tx.
+  exact (json_like_lexes xjson_origin xjson_key xjson_aspa xorigin_tree xkey_tree xaspa_tree
+           lexes_xjson_origin lexes_xjson_key lexes_xjson_aspa m out snap Hm Hs).
+Qed.
+
+Lemma slurm_lexes m out snap : snap_wfb snap = true ->
+  forall tx, byte_texts Slurm m = Some tx ->
+  lexes (run (shape_of Slurm) tx out snap 12 SHeader) (toks (slurm_doc false out snap)).
+Proof.
+  intros Hs tx E. inversion E; subst tx. destruct (snap_wf_parts snap Hs) as (Hwo & Hwk & Hwa).
+  destruct out as [sel fo fk fa]. unfold slurm_doc.
+  destruct fo, fk, fa;
+    cbn -[render filter inc_origin inc_key inc_aspa dec];
+    unfold slurm_header, slurm_prefixes, slurm_bgpsec, slurm_close_more, slurm_close_last, slurm_footer;
+    cbn [toks tsep map fst snd app]; norm_app;
+    lx_doc lexes_slurm_origin lexes_slurm_key lexes_slurm_aspa Hwo Hwk Hwa.
+Qed.
+
+Lemma slurm2_lexes m out snap : snap_wfb snap = true ->
+  forall tx, byte_texts Slurm2 m = Some tx ->
+  lexes (run (shape_of Slurm2) tx out snap 12 SHeader) (toks (slurm_doc true out snap)).
+Proof.
+  intros Hs tx E. inversion E; subst tx. destruct (snap_wf_parts snap Hs) as (Hwo & Hwk & Hwa).
+  destruct out as [sel fo fk fa]. unfold slurm_doc.
+  destruct fo, fk, fa;
+    cbn -[render filter inc_origin inc_key inc_aspa dec];
+    unfold slurm2_header, slurm_prefixes, slurm_bgpsec, slurm_aspas, slurm_close_more, slurm_close_last, slurm_footer;
+    cbn [toks tsep map fst snd app]; norm_app;
+    lx_doc lexes_slurm_origin lexes_slurm_key lexes_slurm_aspa Hwo Hwk Hwa.
+Qed.
+
+(* For json, jsonext, slurm and slurm2: the output is one JSON document, and
+   it is the document that lists exactly the admitted items - for any data,
+   any TAL name, comment or path. *)
+Theorem json_formats_parse f m out snap t :
+  meta_wfb m = true -> snap_wfb snap = true -> doc_tree f m out snap = Some t ->
+  exists b, render_bytes f m out snap = Some b /\ json_parse b = Some t.
+Proof.
+  intros Hm Hs Ht. unfold render_bytes.
+  destruct f; cbn [doc_tree] in Ht; try discriminate; inversion Ht; subst t.
+  - destruct (byte_texts Json m) as [tx|] eqn:E; [|discriminate E]. eexists; split; [reflexivity|].
+    apply json_parse_of_lexes, json_lexes; assumption.
+  - destruct (byte_texts ExtendedJson m) as [tx|] eqn:E; [|discriminate E]. eexists; split; [reflexivity|].
+    apply json_parse_of_lexes, jsonext_lexes; assumption.
+  - destruct (byte_texts Slurm m) as [tx|] eqn:E; [|discriminate E]. eexists; split; [reflexivity|].
+    apply json_parse_of_lexes, (slurm_lexes m); assumption.
+  - destruct (byte_texts Slurm2 m) as [tx|] eqn:E; [|discriminate E]. eexists; split; [reflexivity|].
+    apply json_parse_of_lexes, (slurm2_lexes m); assumption.
+Qed.
